@@ -20,7 +20,7 @@ from .absval import (UNK, Unknown, ABytes, AObj, AFunc, AClass, AMod, ABuiltin,
                      type_name)
 from .absstate import State, join_states
 from .core import AnalysisError
-from .pydb import params_of, norm
+from .pydb import params_of, norm, walk_no_nested
 from . import models
 
 BUILTIN_EXC = {}
@@ -143,6 +143,10 @@ class Result(object):
 
     def raise_classes(self):
         return sorted(set(o.exc for o in self.raises()))
+
+
+class _GenStop(Exception):
+    pass
 
 
 class Interp(object):
@@ -368,6 +372,13 @@ class Interp(object):
         return st, set()
 
     def st_Expr(self, s, st, fr):
+        v = s.value
+        if isinstance(v, ast.Call) and isinstance(v.func, ast.Name) and v.func.id in ("map", "filter", "zip") and \
+                isinstance(self.lookup(v.func.id, st), ABuiltin):
+            # Python 3: a lazy iterator that nobody consumes - the arguments are evaluated, the function is never called
+            for a in v.args:
+                self.ev(a, st)
+            return self._after_ev(st)
         self.ev(s.value, st)
         return self._after_ev(st)
 
@@ -1378,6 +1389,36 @@ class Interp(object):
                 self._diverged = self.do_raise("TypeError", st, n)
                 return UNK
             r = models.compare(op, left, right)
+            if r is None and isinstance(op, (ast.In, ast.NotIn)) and isinstance(right, (tuple, list)) and len(right) <= 64 \
+                    and (isinstance(left, AObj) or any(isinstance(x, AObj) for x in right)):
+                # x in (a, b, c): any(x is e or x == e), the comparison through __eq__ of whichever side has one
+                hit, unk = False, False
+                for e in right:
+                    if e is left:
+                        hit = True
+                        break
+                    t = None
+                    for o, other in ((left, e), (e, left)):
+                        if isinstance(o, AObj) and o.cnode is not None and o.ident not in st.havoc:
+                            eq = self.repo.find_method(o.mod, o.cnode, "__eq__")
+                            if eq is not None:
+                                v = self.call_func(AFunc(eq[0], eq[1], self_obj=o, cls=o.cnode), [other], {}, st, n)
+                                if v is NotImplemented:
+                                    continue
+                                t = truth(v)
+                                break
+                    else:
+                        if not isinstance(left, AObj) and not isinstance(e, AObj):
+                            t = models.compare(ast.Eq(), left, e)
+                    if t is True:
+                        hit = True
+                        break
+                    if t is None:
+                        unk = True
+                if hit:
+                    r = isinstance(op, ast.In)
+                elif not unk:
+                    r = isinstance(op, ast.NotIn)
             if r is None and isinstance(op, (ast.Eq, ast.NotEq)) and isinstance(left, AObj) \
                     and left.cnode is not None and left.ident not in st.havoc:
                 eq = self.repo.find_method(left.mod, left.cnode, "__eq__")
@@ -1803,6 +1844,49 @@ class Interp(object):
                 self.call_func(f, args, kwargs, st, node)
         return obj
 
+    def _eager_generator(self, f, args, kwargs, st, node, depth):
+        """A generator function called with concrete arguments: its body is interpreted eagerly and the first
+        `eager_generators` yielded values are returned as a list (the last element is UNK when the generator was cut
+        off, so that a consumer that needs more becomes undecided instead of wrong).  Only for generators without
+        side effects on shared state (checked: no attribute / subscript store, no global / nonlocal)."""
+        fn = f.node
+        for x in walk_no_nested(fn):
+            if isinstance(x, (ast.Global, ast.Nonlocal)) or \
+                    (isinstance(x, (ast.Attribute, ast.Subscript)) and isinstance(getattr(x, "ctx", None), ast.Store)):
+                return self.opaque_call(f, args, kwargs, st, node)
+        a = fn.args
+        pos = [x.arg for x in a.args]
+        env = dict(zip(pos, ([f.self_obj] if f.self_obj is not None else []) + list(args)))
+        env.update(kwargs)
+        if len(env) != len(pos) or a.vararg or a.kwarg:
+            return self.opaque_call(f, args, kwargs, st, node)
+        nf, ns = len(self.frames), len(st.frames)
+        fr = Frame(f.mod, fn, depth + 1)
+        fr.closure = f.closure
+        fr.gen_values = []
+        fr.gen_cap = self.eager_generators
+        self.frames.append(fr)
+        st.frames.append(env)
+        cut = False
+        try:
+            self.walk_body(fn.body, st, fr)
+        except _GenStop:
+            cut = True
+        finally:
+            del self.frames[nf:]
+            del st.frames[ns:]
+        self._diverged = None
+        return list(fr.gen_values) + ([UNK] if cut else [])
+
+    def ex_Yield(self, n, st):
+        fr = self.frames[-1]
+        if not hasattr(fr, "gen_values"):
+            return UNK
+        fr.gen_values.append(self.ev(n.value, st) if n.value is not None else None)
+        if len(fr.gen_values) >= fr.gen_cap:
+            raise _GenStop()
+        return None
+
     def call_func(self, f, args, kwargs, st, node):
         fn = f.node
         nm = getattr(fn, "name", "<lambda>")
@@ -1811,8 +1895,11 @@ class Interp(object):
             len(self.frames) > self.max_depth + 2
         if not too_deep and self.inline_filter is not None:
             too_deep = not self.inline_filter(f, depth + 1)
-        if too_deep or any(isinstance(x, (ast.Yield, ast.YieldFrom))
-                           for x in ast.walk(fn)):
+        is_gen = any(isinstance(x, (ast.Yield, ast.YieldFrom)) for x in walk_no_nested(fn)) if not isinstance(fn, ast.Lambda) else False
+        if is_gen and not too_deep and getattr(self, "eager_generators", 0) and \
+                not any(isinstance(x, ast.YieldFrom) for x in walk_no_nested(fn)):
+            return self._eager_generator(f, args, kwargs, st, node, depth)
+        if too_deep or is_gen:
             return self.opaque_call(f, args, kwargs, st, node)
         # bind parameters
         a = fn.args
